@@ -1,6 +1,7 @@
 """C03 - bin-packing results are feasible packings of exactly the input items."""
 import random
 from runtime import harness as H
+from props import _ded as D
 from runtime import t3_pack as T
 from props._domains import pack_inputs
 
@@ -21,5 +22,7 @@ def t3(rep, tier, seed):
 
 def run(rep, tier, seed):
     rep.level = "exploration"
-    rep.assume("A1", "A4", "A6", "A8")
+    rep.assume("A1", "A2", "A4", "A5", "A6", "A8")
+    D.run_contracts(rep, "C03", D.FIT, tier, with_lemmas=False)
     t3(rep, tier, seed)
+    D.link_falsifier(rep)
